@@ -155,6 +155,15 @@ def run(ctx):
                 for n in ast.walk(f_.node):
                     if isinstance(n, ast.Call) and isinstance(n.func, ast.Attribute) and n.func.attr == 'match_against_recorded_metadata' and len(n.args) >= 2:
                         readers.append((c_, f_, n))
+    for c_ in (mem, fil):
+        rawp = [(m_, n) for m_ in c_.methods.values() for n in ast.walk(m_.node) if isinstance(n, ast.Call) and (
+            (norm(n.func).split('.')[-1] in ('loads', 'load') and 'json' in norm(n.func) and 'jsonpickle' not in norm(n.func)) or
+            norm(n.func).split('.')[-1] in ('Unpickler', 'restore'))]
+        cb.instance('%s: listings work on decoded recordings (no raw JSON parse of the stored encoding)' % c_.name, c_.name, not rawp)
+        for m_, n in rawp[:1]:
+            res.add(Finding('C10', 'C10.b', 'R-SIBLING', m_.file, m_.qualname, n.lineno, norm(n)[:100],
+                            '%s parses the stored encoding with `%s` instead of decoding it: the filter then sees typed metadata values (dates, tuples, '
+                            'decimals, classes) as raw py/ dicts, and this cassette lists a different set than its siblings' % (m_.qualname, norm(n.func))))
     for c_, f_, n in readers:
         from ..loader import expand_locals as _xl
         md = _xl(f_.node, n.args[1])
